@@ -23,162 +23,8 @@ import (
 	"github.com/syndtr/goleveldb/leveldb/util"
 
 	"verif/harness/internal/vt"
+	"verif/harness/internal/wl"
 )
-
-type batch struct {
-	id      int
-	ops     [][2]int // key rank, value id (0 delete)
-	vals    [][]byte
-	sync    bool
-	ok      bool
-	kind    string
-	beginOp int // storage ops logged before the call started
-	ackOp   int // storage ops logged when the call had returned
-}
-
-type workload struct {
-	rng     *rand.Rand
-	u       *vt.Universe
-	vg      *vt.ValueGen
-	stor    *vt.RecStor
-	db      *leveldb.DB
-	o       *opt.Options
-	batches []*batch
-	tr      *vt.Tracer
-}
-
-func b2i(b bool) int {
-	if b {
-		return 1
-	}
-	return 0
-}
-
-func (w *workload) genOps(n int, big bool) ([][2]int, [][]byte) {
-	ops := make([][2]int, 0, n)
-	vals := make([][]byte, 0, n)
-	for i := 0; i < n; i++ {
-		k := w.rng.Intn(w.u.N())
-		if w.rng.Intn(5) == 0 {
-			ops = append(ops, [2]int{k, 0})
-			vals = append(vals, nil)
-			continue
-		}
-		var v []byte
-		var id int
-		if big {
-			v, id = w.vg.FreshLen(w.o.WriteBuffer/2 + w.rng.Intn(w.o.WriteBuffer))
-		} else {
-			v, id = w.vg.Fresh()
-		}
-		ops = append(ops, [2]int{k, id})
-		vals = append(vals, v)
-	}
-	return ops, vals
-}
-
-func (w *workload) record(b *batch, err error) {
-	b.ok = err == nil
-	b.ackOp = w.stor.NOps()
-	b.id = len(w.batches) + 1
-	w.batches = append(w.batches, b)
-	res := "ok"
-	if err != nil {
-		res = "fail"
-	}
-	w.tr.Emit(vt.Ev{"ev": "batch", "id": b.id, "ops": b.ops, "sync": b2i(b.sync), "res": res, "kind": b.kind,
-		"b": b.beginOp, "a": b.ackOp})
-}
-
-func (w *workload) step() error {
-	r := w.rng.Intn(100)
-	sync := w.rng.Intn(3) == 0
-	wo := &opt.WriteOptions{Sync: sync}
-	switch {
-	case r < 45: // single put/delete
-		ops, vals := w.genOps(1, false)
-		b := &batch{ops: ops, vals: vals, sync: sync, kind: "put", beginOp: w.stor.NOps()}
-		var err error
-		if ops[0][1] == 0 {
-			err = w.db.Delete(w.u.Key(ops[0][0]), wo)
-		} else {
-			err = w.db.Put(w.u.Key(ops[0][0]), vals[0], wo)
-		}
-		w.record(b, err)
-		return err
-	case r < 80: // batch, sometimes oversize (transaction path unless disabled)
-		big := w.rng.Intn(10) == 0
-		n := 2 + w.rng.Intn(5)
-		ops, vals := w.genOps(n, big)
-		lb := new(leveldb.Batch)
-		for i, o := range ops {
-			if o[1] == 0 {
-				lb.Delete(w.u.Key(o[0]))
-			} else {
-				lb.Put(w.u.Key(o[0]), vals[i])
-			}
-		}
-		kind := "write"
-		if big {
-			kind = "bigwrite"
-			if !w.o.DisableLargeBatchTransaction {
-				sync = true // the transaction path is durable on return
-			}
-		}
-		b := &batch{ops: ops, vals: vals, sync: sync, kind: kind, beginOp: w.stor.NOps()}
-		err := w.db.Write(lb, wo)
-		w.record(b, err)
-		return err
-	case r < 92: // explicit transaction; commit is durable on return
-		begin := w.stor.NOps()
-		tx, err := w.db.OpenTransaction()
-		if err != nil {
-			return err
-		}
-		var ops [][2]int
-		var vals [][]byte
-		for j := 0; j < 1+w.rng.Intn(3); j++ {
-			o, v := w.genOps(1+w.rng.Intn(4), w.rng.Intn(8) == 0)
-			for i := range o {
-				if o[i][1] == 0 {
-					err = tx.Delete(w.u.Key(o[i][0]), nil)
-				} else {
-					err = tx.Put(w.u.Key(o[i][0]), v[i], nil)
-				}
-				if err != nil {
-					tx.Discard()
-					return err
-				}
-			}
-			ops = append(ops, o...)
-			vals = append(vals, v...)
-		}
-		if w.rng.Intn(4) == 0 {
-			tx.Discard()
-			return nil
-		}
-		b := &batch{ops: ops, vals: vals, sync: true, kind: "tx", beginOp: begin}
-		err = tx.Commit()
-		if err != nil {
-			tx.Discard()
-		}
-		w.record(b, err)
-		return err
-	case r < 96:
-		return w.db.CompactRange(util.Range{})
-	default:
-		// clean close + reopen inside the workload
-		if err := w.db.Close(); err != nil {
-			return err
-		}
-		db, err := leveldb.Open(w.stor, w.o)
-		if err != nil {
-			return err
-		}
-		w.db = db
-		return nil
-	}
-}
 
 // ---- outcome of one reopen ----
 
@@ -187,40 +33,6 @@ type outcome struct {
 	ok     bool
 	err    string
 	store  [][2]int // present keys: rank, value id (-1 unknown bytes)
-}
-
-func readAll(db *leveldb.DB, u *vt.Universe, in *vt.Interner) ([][2]int, error) {
-	var st [][2]int
-	for k := 0; k < u.N(); k++ {
-		v, err := db.Get(u.Key(k), nil)
-		if err == leveldb.ErrNotFound {
-			continue
-		}
-		if err != nil {
-			return nil, fmt.Errorf("get %d: %v", k, err)
-		}
-		st = append(st, [2]int{k, in.Lookup(v)})
-	}
-	// the iterator must agree with the point reads
-	it := db.NewIterator(nil, nil)
-	i := 0
-	for it.Next() {
-		k := u.Rank(it.Key())
-		if i >= len(st) || st[i][0] != k || st[i][1] != in.Lookup(it.Value()) {
-			it.Release()
-			return nil, fmt.Errorf("iterator disagrees with Get at position %d (key %d)", i, k)
-		}
-		i++
-	}
-	err := it.Error()
-	it.Release()
-	if err != nil {
-		return nil, err
-	}
-	if i != len(st) {
-		return nil, fmt.Errorf("iterator yields %d pairs, point reads %d", i, len(st))
-	}
-	return st, nil
 }
 
 func reopen(img *vt.RecStor, o *opt.Options, u *vt.Universe, in *vt.Interner) (out outcome) {
@@ -234,7 +46,7 @@ func reopen(img *vt.RecStor, o *opt.Options, u *vt.Universe, in *vt.Interner) (o
 	if err != nil {
 		return outcome{err: "open: " + err.Error(), nometa: !hasMeta}
 	}
-	st, err := readAll(db, u, in)
+	st, err := wl.ReadAll(db, u, in)
 	if err != nil {
 		db.Close()
 		return outcome{err: err.Error()}
@@ -247,14 +59,14 @@ func reopen(img *vt.RecStor, o *opt.Options, u *vt.Universe, in *vt.Interner) (o
 
 // findWitness looks for a set of batch ids whose application in order yields store.
 // The result is only a proposal: the trace specification checks it.
-func findWitness(bs []*batch, at int, nk int, store [][2]int) []int {
+func findWitness(bs []*wl.Batch, at int, nk int, store [][2]int) []int {
 	want := make([]int, nk)
 	for _, p := range store {
 		want[p[0]] = p[1]
 	}
-	var cand []*batch
+	var cand []*wl.Batch
 	for _, b := range bs {
-		if b.beginOp < at {
+		if b.BeginOp < at {
 			cand = append(cand, b)
 		}
 	}
@@ -267,7 +79,7 @@ func findWitness(bs []*batch, at int, nk int, store [][2]int) []int {
 	sel := make([]bool, len(cand))
 	for i := len(cand) - 1; i >= 0; i-- {
 		last := map[int]int{}
-		for _, o := range cand[i].ops {
+		for _, o := range cand[i].Ops {
 			last[o[0]] = o[1]
 		}
 		okb := true
@@ -287,11 +99,11 @@ func findWitness(bs []*batch, at int, nk int, store [][2]int) []int {
 	return ids(cand, sel)
 }
 
-func ids(cand []*batch, sel []bool) []int {
+func ids(cand []*wl.Batch, sel []bool) []int {
 	r := []int{}
 	for i, s := range sel {
 		if s {
-			r = append(r, cand[i].id)
+			r = append(r, cand[i].ID)
 		}
 	}
 	return r
@@ -321,26 +133,26 @@ func main() {
 		os.Exit(2)
 	}
 	wb := row.O.WriteBuffer
-	w := &workload{rng: rng, u: vt.NewUniverse(row.Cmp, *nkeys, *seed, true),
-		vg:   vt.NewValueGen(*seed, []int{0, 1, 8, 30, 30, 100, 100, wb / 8, wb / 3}),
-		stor: vt.NewRecStor(), o: row.O, tr: tr}
-	tr.Emit(vt.Ev{"ev": "reset", "ro": 0, "seed": *seed, "row": row.Desc, "nk": w.u.N()})
+	w := &wl.Workload{Rng: rng, U: vt.NewUniverse(row.Cmp, *nkeys, *seed, true),
+		VG:   vt.NewValueGen(*seed, []int{0, 1, 8, 30, 30, 100, 100, wb / 8, wb / 3}),
+		Stor: vt.NewRecStor(), O: row.O, Tr: tr}
+	tr.Emit(vt.Ev{"ev": "reset", "ro": 0, "seed": *seed, "row": row.Desc, "nk": w.U.N()})
 	start := time.Now()
-	db, err := leveldb.Open(w.stor, w.o)
+	db, err := leveldb.Open(w.Stor, w.O)
 	if err != nil {
 		fmt.Fprintln(os.Stderr, "open:", err)
 		os.Exit(2)
 	}
-	w.db = db
+	w.DB = db
 	for i := 0; i < *nsteps; i++ {
-		if err := w.step(); err != nil {
+		if err := w.Step(); err != nil {
 			// no faults are injected here: an error is a finding of its own
 			tr.Emit(vt.Ev{"ev": "workload-error", "err": err.Error()})
 			break
 		}
 	}
-	w.db.Close()
-	log := w.stor.OpLog()
+	w.DB.Close()
+	log := w.Stor.OpLog()
 	nops := len(log)
 
 	// ---- crash points ----
@@ -385,7 +197,7 @@ func main() {
 				if isNested {
 					base = img.Clone()
 				}
-				o := reopen(img, w.o, w.u, w.vg.In)
+				o := reopen(img, w.O, w.U, w.VG.In)
 				mu.Lock()
 				results = append(results, result{job: j, depth: 1, out: o})
 				reopens++
@@ -396,7 +208,7 @@ func main() {
 					for at2 := 0; at2 <= len(log2); at2++ {
 						c2 := r.Intn(vt.NImageClasses)
 						img2, _ := vt.ImageFrom(base, log2, at2, c2, r)
-						o2 := reopen(img2, w.o, w.u, w.vg.In)
+						o2 := reopen(img2, w.O, w.U, w.VG.In)
 						mu.Lock()
 						results = append(results, result{job: j, depth: 2, at2: at2, out: o2})
 						nestedReopens++
@@ -429,11 +241,11 @@ func main() {
 	// must-have and begun sets depend on `at` only through these two counts:
 	mustCount := func(at int) (int, int) {
 		m, b := 0, 0
-		for _, x := range w.batches {
-			if x.ok && x.sync && x.ackOp <= at {
+		for _, x := range w.Batches {
+			if x.OK && x.Sync && x.AckOp <= at {
 				m++
 			}
-			if x.beginOp < at {
+			if x.BeginOp < at {
 				b++
 			}
 		}
@@ -455,13 +267,13 @@ func main() {
 		}
 		seen[key] = 1
 		distinct++
-		e := vt.Ev{"ev": "recovered", "ok": b2i(r.out.ok), "at": r.at, "class": vt.ImageClassNames[r.class], "depth": r.depth, "at2": r.at2,
-			"store": r.out.store, "err": r.out.err, "nometa": b2i(r.out.nometa)}
+		e := vt.Ev{"ev": "recovered", "ok": wl.B2i(r.out.ok), "at": r.at, "class": vt.ImageClassNames[r.class], "depth": r.depth, "at2": r.at2,
+			"store": r.out.store, "err": r.out.err, "nometa": wl.B2i(r.out.nometa)}
 		if r.out.store == nil {
 			e["store"] = [][2]int{}
 		}
 		if r.out.ok {
-			e["witness"] = findWitness(w.batches, r.at, w.u.N(), r.out.store)
+			e["witness"] = findWitness(w.Batches, r.at, w.U.N(), r.out.store)
 		} else {
 			e["witness"] = []int{}
 		}
@@ -481,11 +293,11 @@ func main() {
 	for i := 0; i < *usage && len(jobs) > 0; i++ {
 		j := jobs[rng.Intn(len(jobs))]
 		img, _ := vt.Image(log, j.at, j.class, rand.New(rand.NewSource(j.seed)))
-		db, err := leveldb.Open(img, w.o)
+		db, err := leveldb.Open(img, w.O)
 		if err != nil {
 			continue // already reported through its recovered line
 		}
-		st, err := readAll(db, w.u, w.vg.In)
+		st, err := wl.ReadAll(db, w.U, w.VG.In)
 		if err != nil {
 			db.Close()
 			continue
@@ -495,7 +307,7 @@ func main() {
 		used++
 	}
 	tr.Close()
-	sum := map[string]interface{}{"seed": *seed, "row": row.Desc, "events": tr.N(), "batches": len(w.batches), "storage_ops": nops,
+	sum := map[string]interface{}{"seed": *seed, "row": row.Desc, "events": tr.N(), "batches": len(w.Batches), "storage_ops": nops,
 		"crash_points": len(jobs), "reopens": reopens, "nested_reopens": nestedReopens, "distinct_outcomes": distinct,
 		"outcomes_differing_from_clean": differs, "followups": used, "wall_s": time.Since(start).Seconds()}
 	b, _ := json.Marshal(sum)
@@ -520,28 +332,28 @@ func errName(err error) string {
 }
 
 // followUp runs a short KV-contract program (KVTrace events) on a recovered DB.
-func followUp(tr *vt.Tracer, db *leveldb.DB, img *vt.RecStor, w *workload, rng *rand.Rand) {
-	n := w.u.N()
+func followUp(tr *vt.Tracer, db *leveldb.DB, img *vt.RecStor, w *wl.Workload, rng *rand.Rand) {
+	n := w.U.N()
 	for i := 0; i < 60; i++ {
 		switch r := rng.Intn(10); {
 		case r < 5:
-			ops, vals := w.genOps(1+rng.Intn(3), false)
+			ops, vals := w.GenOps(1+rng.Intn(3), false)
 			lb := new(leveldb.Batch)
 			for i, o := range ops {
 				if o[1] == 0 {
-					lb.Delete(w.u.Key(o[0]))
+					lb.Delete(w.U.Key(o[0]))
 				} else {
-					lb.Put(w.u.Key(o[0]), vals[i])
+					lb.Put(w.U.Key(o[0]), vals[i])
 				}
 			}
 			err := db.Write(lb, nil)
 			tr.Emit(vt.Ev{"ev": "write", "ops": ops, "err": errName(err)})
 		case r < 9:
 			k := rng.Intn(n)
-			v, err := db.Get(w.u.Key(k), nil)
+			v, err := db.Get(w.U.Key(k), nil)
 			id := 0
 			if err == nil {
-				id = w.vg.In.Lookup(v)
+				id = w.VG.In.Lookup(v)
 			}
 			tr.Emit(vt.Ev{"ev": "get", "k": k, "err": errName(err), "v": id})
 		default:
@@ -551,16 +363,16 @@ func followUp(tr *vt.Tracer, db *leveldb.DB, img *vt.RecStor, w *workload, rng *
 	}
 	err := db.Close()
 	tr.Emit(vt.Ev{"ev": "close", "err": errName(err)})
-	db2, err := leveldb.Open(img, w.o)
+	db2, err := leveldb.Open(img, w.O)
 	tr.Emit(vt.Ev{"ev": "reopen", "ro": 0, "err": errName(err)})
 	if err != nil {
 		return
 	}
 	for k := 0; k < n; k++ {
-		v, err := db2.Get(w.u.Key(k), nil)
+		v, err := db2.Get(w.U.Key(k), nil)
 		id := 0
 		if err == nil {
-			id = w.vg.In.Lookup(v)
+			id = w.VG.In.Lookup(v)
 		}
 		tr.Emit(vt.Ev{"ev": "get", "k": k, "err": errName(err), "v": id})
 	}
